@@ -437,16 +437,39 @@ def gen_history(rng, spec, table, style=None, prefer_variadic=False):
     if prefer_variadic and va and rng.random() < 0.8 and not any(m["variadic"] for m in ms):
         ms[0] = rng.choice(va)             # mocks sharing a file: the mode of THIS mock is what is being checked
     steps, exps = [], []
+    bufs = {}                      # buffer id -> [method, current contents]: caller-owned []interface{} slices
     n = rng.randint(4, 12)
     while len(steps) < n:
         r = rng.random()
         m = rng.choice(ms)
         mine = [e for e in exps if e["m"] == m["name"]]
+        if bufs and r < 0.12:
+            # the test overwrites one element of a buffer it spread into an earlier EXPECT() call
+            b = rng.choice(sorted(bufs))
+            bm, cur = bufs[b]
+            if cur:
+                i = rng.randrange(len(cur))
+                v = gen_expect(rng, bm, unroll, fid, "none")["args"][bm["nfixed"]:]
+                v = v[0] if v else {"any": True}
+                if ("sl" in v) == ("sl" in cur[i]) or not unroll:
+                    cur[i] = v
+                    steps.append({"op": "mutate", "b": b, "m": bm["name"], "i": i, "v": v})
+            continue
         if r < 0.38 or not exps:
             e = gen_expect(rng, m, unroll, fid, style)
             if mine and rng.random() < 0.3:
                 e["args"] = json.loads(json.dumps(rng.choice(mine)["args"]))      # same arguments: ordering / shadowing
-            steps.append(e); exps.append(e)
+            snapshot = {"m": e["m"], "args": json.loads(json.dumps(e["args"]))}
+            if m["variadic"] and rng.random() < 0.35:
+                # EXPECT().M(fixed..., buf...): table-driven tests reuse one buffer for several registrations
+                tail = e["args"][m["nfixed"]:]
+                same = [b for b in sorted(bufs) if bufs[b][0] is m]
+                b = rng.choice(same) if same and rng.random() < 0.6 else len(bufs) + 1
+                bufs[b] = [m, json.loads(json.dumps(tail))]
+                steps.append({"op": "setbuf", "b": b, "m": m["name"], "args": tail})
+                e["args"] = e["args"][:m["nfixed"]]
+                e["buf"] = b
+            steps.append(e); exps.append(snapshot)
         elif r < 0.93:
             e = rng.choice(mine) if mine and rng.random() < 0.85 else None
             c = call_for(rng, m, unroll, e)
@@ -503,22 +526,27 @@ def z_term(n):
     return "(%d)%%Z" % n
 
 
+def tail_term(m, a):
+    """an expectation argument in a variadic position"""
+    if "sl" in a:
+        return slice_term(m, [spec_val_term(m["elem"], x) for x in a["sl"]])
+    return spec_val_term(m["elem"], a)
+
+
 def step_term(step, mi, m, beh):
     if step["op"] == "cleanup":
-        return "OCleanup"
+        return "WOp OCleanup"
+    if step["op"] == "setbuf":
+        return "WSetBuf %d %s" % (step["b"], coq_list(tail_term(m, a) for a in step["args"]))
+    if step["op"] == "mutate":
+        return "WMutate %d %d %s" % (step["b"], step["i"], tail_term(m, step["v"]))
     if step["op"] == "call":
         vs = [val_term(d, a.get("k", 0)) for d, a in zip(m["params"][:m["nfixed"]], step["args"])]
         if m["variadic"]:
             vs.append(slice_term(m, [val_term(m["elem"], x.get("k", 0)) for x in step["args"][m["nfixed"]]["sl"]]))
-        return "OCall %d %s" % (mi, coq_list(vs))
-    xs = []
-    for i, a in enumerate(step["args"]):
-        if i < m["nfixed"]:
-            xs.append(spec_val_term(m["params"][i], a))
-        elif "sl" in a:
-            xs.append(slice_term(m, [spec_val_term(m["elem"], x) for x in a["sl"]]))
-        else:
-            xs.append(spec_val_term(m["elem"], a))
+        return "WOp (OCall %d %s)" % (mi, coq_list(vs))
+    xs = [spec_val_term(m["params"][i], a) for i, a in enumerate(step["args"][:m["nfixed"]])] + \
+         [tail_term(m, a) for a in step["args"][m["nfixed"]:]]
     ss = []
     for su in step["setups"]:
         if su["s"] == "return":
@@ -546,7 +574,9 @@ def step_term(step, mi, m, beh):
                 else:
                     vals.append(spec_val_term(m["results"][i], v))
             ss.append("SetReturn %s" % coq_list(vals))
-    return "OExpect %d %s %s" % (mi, coq_list(xs), coq_list(ss))
+    if "buf" in step:
+        return "WExpectBuf %d %s %d %s" % (mi, coq_list(xs), step["buf"], coq_list(ss))
+    return "WOp (OExpect %d %s %s)" % (mi, coq_list(xs), coq_list(ss))
 
 
 BADV = "(VTok (DId 999999 false) 0)"
@@ -611,7 +641,8 @@ def case_term(h, obs, spec, table):
     for s, o in zip(h["steps"], obs):
         m = table[idx[s["m"]]] if "m" in s else None
         ops.append(step_term(s, idx.get(s.get("m"), 0), m, beh))
-        ob.append(obs_term(o, m))
+        if s["op"] not in ("setbuf", "mutate"):
+            ob.append(obs_term(o, m))
     return "mkC %s %s %s %s\n  %s\n  %s" % (coq_list(sig_term(m) for m in table), coq_bool(spec["unroll"] is True), coq_bool(h["ctor"]),
                                        coq_list("(%d, %s)" % (f, coq_list(r)) for f, r in beh), coq_list(ops), coq_list(ob))
 
@@ -663,6 +694,24 @@ def arg_match(exp_list, act_list):
     return True
 
 
+def effective_args(steps):
+    """per step: the arguments an EXPECT() call really passes (fixed + the buffer's contents at that moment)"""
+    bufs, out = {}, []
+    for s in steps:
+        eff = None
+        if s["op"] == "setbuf":
+            bufs[s["b"]] = list(s["args"])
+        elif s["op"] == "mutate":
+            l = list(bufs.get(s["b"], []))
+            if s["i"] < len(l):
+                l[s["i"]] = s["v"]
+            bufs[s["b"]] = l
+        elif s["op"] == "expect":
+            eff = s["args"] + (bufs.get(s["buf"], []) if "buf" in s else [])
+        out.append(eff)
+    return out
+
+
 def oracle(h, obs, spec, table):
     """The property text evaluated on the observed history.  Returns (errors, stats)."""
     errs = []
@@ -672,6 +721,7 @@ def oracle(h, obs, spec, table):
     unroll = spec["unroll"] is True
     by = {m["name"]: m for m in table}
     exps = []
+    eff = effective_args(h["steps"])
     for si, (s, o) in enumerate(zip(h["steps"], obs)):
         def bad(msg):
             errs.append("step %d (%s %s): %s" % (si, s["op"], s.get("m", ""), msg))
@@ -680,11 +730,15 @@ def oracle(h, obs, spec, table):
                 bad("unclassified Errorf")
         if o["out"] == "panic" and o.get("class") in ("other", None):
             bad("unclassified panic: %s" % o.get("msg"))
+        if s["op"] in ("setbuf", "mutate"):
+            if o["out"] != "done":
+                bad("writing the caller's buffer failed: %s" % o)
+            continue
         if s["op"] == "expect":
             m = by[s["m"]]
             fnarg = False
             el = []
-            for i, a in enumerate(s["args"]):
+            for i, a in enumerate(eff[si]):
                 if i < m["nfixed"]:
                     d = m["params"][i]
                     el.append(canon_spec(d, a))
@@ -844,6 +898,9 @@ def run_histories(mod, hs):
     for r, h in zip(res, hs):
         if r.get("err"):
             raise RuntimeError("drv_testify: %s on %s" % (r["err"], json.dumps(h)[:600]))
+        for o in r["obs"]:
+            if o["out"] == "panic" and str(o.get("msg", "")).startswith("driver:"):
+                raise RuntimeError("drv_testify: %s on %s" % (o["msg"], json.dumps(h)[:600]))
     return [r["obs"] for r in res]
 
 
@@ -1005,7 +1062,7 @@ def check(ctx, only=None):
     # ---- evidence
     hist = {"mocks": sum(len(m["specs"]) for m in results), "histories": len(flat), "steps": sum(len(h["steps"]) for _, _, _, h, _ in flat),
             "unroll_true": sum(1 for _, s, _, _, _ in flat if s["unroll"] is True), "no_ctor": sum(1 for _, _, _, h, _ in flat if not h["ctor"]),
-            "methods": {}, "position_types": {}, "generic_mocks": 0, "mocks_sharing_a_file": 0, "shared_file_settings": {}, "lower_case_structs": 0, "setup_styles": {}, "outcomes": {}, "dropped_not_owned": [{"mock": d["spec"]["struct"], "stage": d["stage"], "error": d["error"][:200]} for _, d, _ in dropped_other][:20],
+            "methods": {}, "position_types": {}, "generic_mocks": 0, "mocks_sharing_a_file": 0, "caller_buffers": {}, "shared_file_settings": {}, "lower_case_structs": 0, "setup_styles": {}, "outcomes": {}, "dropped_not_owned": [{"mock": d["spec"]["struct"], "stage": d["stage"], "error": d["error"][:200]} for _, d, _ in dropped_other][:20],
             "dropped_owned": len(owned_fail)}
     # replace-type slice: how the generated signatures differ from the declared ones
     rt = {"mocks": 0, "positions": {}, "configured_but_not_applied": 0}
@@ -1051,6 +1108,9 @@ def check(ctx, only=None):
             if spec["struct"][0].islower():
                 hist["lower_case_structs"] += 1
         for s, o in zip(h["steps"], ob):
+            if s["op"] in ("setbuf", "mutate") or (s["op"] == "expect" and "buf" in s):
+                k = "expect-spreading-buffer" if s["op"] == "expect" else s["op"]
+                hist["caller_buffers"][k] = hist["caller_buffers"].get(k, 0) + 1
             if s["op"] == "expect":
                 k = "+".join(su["s"] for su in s["setups"]) or "none"
                 hist["setup_styles"][k] = hist["setup_styles"].get(k, 0) + 1
